@@ -31,16 +31,18 @@ CellTexts(dom) ==
   LET ns == NodesSeq(dom)
       cellsq == SelectSeq(ns, LAMBDA n : n.k = "e" /\ n.h /\ n.n \in {"td", "th"} /\ ~HasTable(n.c))
   IN [i \in 1..Len(cellsq) |-> Letters(FlowTextSeq(cellsq[i].c))]
-P_C03_run(c, run) ==
+\* (F: a filter on letter-code sequences - the identity for the property itself)
+P_C03_gen(c, run, F(_)) ==
   IsOk(run) =>
     LET dom == Dom1(c, run)
         cf == CfgOf(run.cfg)
-        v == Letters(FlowTextSeq(dom))
-        o == Letters(OutCells(run.res))
+        v == F(Letters(FlowTextSeq(dom)))
+        o == F(Letters(OutCells(run.res)))
     IN IF ~HasTable(dom) \/ cf.raw
        THEN o = v
        ELSE /\ BagOf(o) = BagOf(v)
-            /\ LET ct == CellTexts(dom) IN \A i \in 1..Len(ct) : IsSubseq(ct[i], o)
+            /\ LET ct == CellTexts(dom) IN \A i \in 1..Len(ct) : IsSubseq(F(ct[i]), o)
+P_C03_run(c, run) == P_C03_gen(c, run, LAMBDA s : s)
 P_C03(c) == \A i \in 1..Len(c.runs) : P_C03_run(c, c.runs[i])
 
 (* ---- C04: paragraph wrapping is greedy word filling ------------------------------------- *)
